@@ -12,7 +12,7 @@ import z3
 
 from .. import core as C
 from .. import tensor as T
-from ..core import BOOL, INT, KEY, REAL, ROW, VAL, Builtin, Closure, NDArr, Obj, Opaque, Partial, PyRaise, Sym, Unsupported
+from ..core import BOOL, INT, KEY, REAL, ROW, VAL, Builtin, Closure, NamedTuple, NDArr, Obj, Opaque, Partial, PyRaise, Sym, Unsupported
 from ..tensor import Tensor
 from . import LIB
 from .np_model import _as_t
@@ -172,9 +172,13 @@ def _red(name, kind):
         a = tt(a)
         if not isinstance(a, Tensor):
             return a
-        if kind == "mean":
-            return T.mean(a, axis)
-        return T.reduce(a, kind, axis, keepdims)
+        r = T.mean(a, axis) if kind == "mean" else T.reduce(a, kind, axis, False)
+        if keepdims:
+            # keepdims=True: reduced axes are kept with size one
+            axes = range(a.ndim) if axis is None else ([axis] if isinstance(axis, int) else list(axis))
+            for ax in sorted(x if x >= 0 else x + a.ndim for x in axes):
+                r = T.expand_dims(T.as_tensor(r), ax)
+        return r
     return g
 
 
@@ -546,12 +550,22 @@ def vmap_call(E, fn, in_axes, out_axes, args, kwargs):
             sliced.append(a)
         else:
             sliced.append(_map_leaves(a, lambda lf: _slice_axis(lf, ax, Sym(i))))
-    out = E.call_value(fn, sliced, dict(kwargs))
+    # enclosing vmap indices (read by models that introduce per-slice function symbols, e.g. lax.scan)
+    vstack = E.st.ghost.setdefault("vmap_stack", [])
+    vstack.append((i, mapped_dim))
+    try:
+        out = E.call_value(fn, sliced, dict(kwargs))
+    finally:
+        vstack.pop()
 
     def wrap(o):
+        if isinstance(o, (tuple, list)):  # pytree outputs are mapped leaf-wise (never stacked)
+            return type(o)(wrap(x) for x in o)
         o = tt(o)
         if isinstance(o, (tuple, list)):
             return type(o)(wrap(x) for x in o)
+        if isinstance(o, NamedTuple):  # namedtuple outputs are pytrees: mapped field-wise
+            return NamedTuple(o.typ, [wrap(x) for x in o.values])
         ot = T.as_tensor(o)
         oa = out_axes if isinstance(out_axes, int) else 0
         if oa < 0:
@@ -769,6 +783,26 @@ def softmax_last(E, x, log=False):
     else:
         sb = s
     p = C.binop("/", ex, sb)
+    K = x.shape[-1]
+    if not (isinstance(K, int) and K <= T.UNROLL_MAX):
+        # assumed lemmas for a symbolic last axis (Sum nodes are uninterpreted;
+        # for concrete sizes the sums are explicit and z3 derives both facts):
+        #   softmax.denominator_positive:  K >= 1  =>  sum_k exp(x_k) > 0   (Finset.sum_pos, exp > 0)
+        #   softmax.normalised:            K >= 1  =>  sum_k exp(x_k)/S == 1 (Finset.sum_div, div_self)
+        kz = T.dim_z(K)
+        nb = x.ndim - 1
+        sv = (lambda *b: C.as_real(s.at(*b))) if isinstance(s, Tensor) else (lambda *b: C.as_real(s))
+        if nb:
+            st.assume_forall([INT] * nb, lambda *b: z3.Implies(kz >= 1, sv(*b) > 0), "softmax.denominator_positive")
+        else:
+            st.assume(z3.Implies(kz >= 1, sv() > 0))
+        if not log:
+            sp = T.reduce_axis(T.as_tensor(p), x.ndim - 1, "sum")
+            pv = (lambda *b: C.as_real(sp.at(*b))) if isinstance(sp, Tensor) else (lambda *b: C.as_real(sp))
+            if nb:
+                st.assume_forall([INT] * nb, lambda *b: z3.Implies(kz >= 1, pv(*b) == 1), "softmax.normalised")
+            else:
+                st.assume(z3.Implies(kz >= 1, pv() == 1))
     if log:
         lse = T.tfn("log", s)
         lseb = T.expand_dims(lse, -1) if isinstance(lse, Tensor) else lse
@@ -830,7 +864,10 @@ def optax_sq(E, predictions, targets=None):
 
 def _same_shape_or_raise(a, b):
     a, b = tt(a), tt(b)
-    if isinstance(a, Tensor) and isinstance(b, Tensor):
+    if isinstance(a, Tensor) or isinstance(b, Tensor):
+        # a 0-d array (handed around as a scalar) has shape (): optax 0.2.8
+        # utils.check_shapes_equal raises ValueError for () vs (1,) as well
+        a, b = T.as_tensor(a), T.as_tensor(b)
         if a.ndim != b.ndim or not all(T.dim_eq(x, y) for x, y in zip(a.shape, b.shape)):
             # optax.squared_error: chex.assert_equal_shape on (predictions, targets)
             raise T.ShapeError(f"optax: predictions {a.shape} and targets {b.shape} must have equal shapes")
